@@ -1,7 +1,7 @@
 //@ unit C17_cv
 //@ props C17 C02
 //@ strength proved-unbounded
-//@ min-verified 2
+//@ min-verified 3
 //@ rlimit 100
 //@ assume vowel_constraint's table is abstracted as an uninterpreted function here; its entries are checked by Kani unit C17_tabs
 //@ assume a Vec<char> holds fewer than usize::MAX/2 elements (Rust allocation limit), stated as a precondition
